@@ -22,7 +22,8 @@ RULE = (
     "ValueError / KeyError / AttributeError / RecursionError / MemoryError) x unpickler keyword "
     "arguments (none, encoding=latin1/bytes, fix_imports=False, errors=strict; compared with the "
     "stock unpickler under the same arguments). Oracle: verdict v "
-    "taken separately, ranks by own table; returned => rank(v) <= rank(T), value and sink log "
+    "taken separately (plus the payload's documented floor, known by construction), ranks by own "
+    "table; returned => rank(v) <= rank(T), value and sink log "
     "equal to the stock unpickler's on the same bytes; rank(v) > rank(T) => UnsafeFileError with "
     "info['severity'] == v; where the path honours T, rank(v) <= rank(T) => returns; every "
     "non-return leaves the sink log empty and raises no pickle.find_class audit event; a flip "
@@ -69,6 +70,20 @@ PY2_STYLE = (
     b"(lp0\nS'x'\np1\naS'y'\np2\na.",
 )
 KWARGS = ({}, {}, {}, {"encoding": "latin1"}, {"encoding": "bytes"}, {"fix_imports": False}, {"errors": "strict"})
+# floors of the flagged payloads by the documented rules (C04), independent of what the
+# analysis under test says on this particular call: a load may only return if the accepted
+# severity is at least this
+FLOORS = {1: 3, 2: 3, 3: 3, 4: 4, 5: 4, 6: 5, 7: 5, 9: 3, 10: 3, 11: 3}
+
+
+def floor_for(data):
+    best = 0
+    for i, f in FLOORS.items():
+        if data.startswith(FLAGGED[i]):
+            best = max(best, f)
+    return best
+
+
 ANALYSIS_RAISES = (
     b"",
     b"garbage!",
@@ -357,6 +372,12 @@ def run_case(data, stream_kind, threshold, path, fault, scratch, flip_to=None, k
         return None, "analysis-raises-" + klass
     rank_v, rank_T = RANK[v[1]], RANK[eff_T]
     if outcome[0] == "returned":
+        if floor_for(data) > rank_T:
+            names = {v_: k_ for k_, v_ in RANK.items()}
+            return fail(
+                f"returned {outcome[1]!r} with accepted severity {eff_T} although this payload's "
+                f"documented floor is {names[floor_for(data)]} (verdict reported on this call: {v[1]})"
+            )
         if rank_v > rank_T:
             return fail(f"returned {outcome[1]!r} although the verdict {v[1]} exceeds the accepted {eff_T}")
         if want is None:
